@@ -209,7 +209,7 @@ def c04(tier, replay=None):
     if tier == "quick":
         plans = [("main-d4", dict(MaxHist=4), "states"),
                  ("nested-d2", dict(SCRIPT="ScriptNest", MaxHist=2, MaxId=3, CODES='{"a", "b", "B", "bad"}'), "states"),
-                 ("parse-d4", dict(DOCS="MCDocs", MaxHist=4, MaxId=3, CSLOTS="MCCSlots2", LSLOTS="MCLSlots1", CATS='{"", "k"}', NAMES='{"_x", "_y", "bad"}', MaxNames=1, MaxPkt=1, PVALS='{"s1"}'), "states"),
+                 ("parse-d4", dict(DOCS="MCDocs", MaxHist=4, MaxId=3, CSLOTS="MCCSlots2", LSLOTS="MCLSlots1", CATS='{"", "k"}', NAMES='{"_x", "_y", "_z", "bad"}', MaxNames=1, MaxPkt=1, PVALS='{"s1"}'), "states"),
                  ("twin-d2", dict(SCRIPT="ScriptTwin", MaxHist=2, MaxId=2, CODES='{"a", "b"}', NAMES='{"_x", "_y", "bad"}', CATS='{"NULL", "", "k"}', MaxNames=1, MaxPkt=1), "states"),
                  ("two-cifs-d4", dict(CIFS='{"c1", "c2"}', MaxHist=4, CSLOTS="MCCSlots2", NAMES='{"_x", "_X", "bad"}', CODES='{"a", "A"}', CATS='{"NULL", ""}', MaxNames=1, MaxPkt=1), "states")]
     else:
